@@ -128,14 +128,21 @@ def main(argv):
     if a.replay:
         return mod.replay(json.load(open(a.replay)))
     chk = Check(pid, a.tier, seed, getattr(mod, 'LEVEL', 'model_checking'))
+    from . import uni
+    if a.tier == 'thorough':
+        import random
+        uni.CROSS['rate'] = float(os.environ.get('HV_CROSS_RATE', '0.05')); uni.CROSS['rng'] = random.Random(seed + 17)
     try:
         mod.run(chk)
+        if uni.CROSS['checked']:
+            chk.extra['cross_solver'] = {'queries_rechecked_by_cvc5_and_z3_4.8.12': uni.CROSS['checked'], 'agree': uni.CROSS['agree'], 'no_answer_in_60s': uni.CROSS['skipped'], 'disagreements': len(uni.CROSS['disagree'])}
+            if uni.CROSS['disagree']: raise Inconclusive('solvers disagree on an exported query: ' + str(uni.CROSS['disagree'][:2]))
     except front.FrontError as e:
         print(f'INCONCLUSIVE property={pid} front-end: {e}', flush=True); chk.inconclusive.append('front-end'); chk.finish(); return 2
     except Exception as e:
         from .mirsym.interp import Unsupported
         traceback.print_exc()
-        kind = 'unsupported=' + str(e)[:200] if isinstance(e, Unsupported) else 'error=' + repr(e)[:200]
+        kind = 'unsupported=' + str(e)[:200] if isinstance(e, Unsupported) else 'inconclusive=' + str(e)[:300] if isinstance(e, Inconclusive) else 'error=' + repr(e)[:200]
         print(f'INCONCLUSIVE property={pid} {kind}', flush=True)
         chk.inconclusive.append(kind); chk.finish(); return 2
     return chk.finish()
